@@ -1,23 +1,33 @@
-// C10: compat/mem/lin_realloc.cpp with malloc/free/realloc renamed (see C10_malloc.cpp)
+// C10: compat/mem/lin_realloc.cpp as a RELEASE build inside namespace c10rel (see C10_malloc_rel.cpp)
 #define NDEBUG 1
 #include <cstddef>
 #include <cstdlib>
 #include <cstring>
+#include <cstdint>
+#include <cstdio>
+#include <climits>
 #include <cassert>
 #include <memory>
 #include <mutex>
+#include <new>
+#include <utility>
+#include <algorithm>
 #include <stdlib.h>
 #include <string.h>
+#include <stdint.h>
+#include <stdio.h>
+#include <limits.h>
+#include <unistd.h>
 #include <igris/sync/critical_context.h>
 #include <igris/sync/syslock.h>
+#include <compat/mem/lin_malloc.h>
 #define malloc igr_malloc
-#define __brkval __brkval_rel
-#define __flp __flp_rel
-#define __allocation_counter __allocation_counter_rel
-#define __malloc_heap_start __malloc_heap_start_rel
-#define __malloc_heap_end __malloc_heap_end_rel
 #define free igr_free
 #define realloc igr_realloc
 extern "C" void *igr_malloc(size_t);
 extern "C" void igr_free(void *);
+extern "C" void *igr_realloc(void *, size_t);
+namespace c10rel
+{
 #include <compat/mem/lin_realloc.cpp>
+}
